@@ -3,6 +3,9 @@
 -/
 import Driver.Wire
 import Driver.Oracles
+import Driver.OpsV1
+import Driver.OpsCli
+import Driver.OpsYaml
 
 namespace Jd.Driver
 open Jd Jd.Wire
@@ -132,6 +135,16 @@ def run (op : String) : P String :=
   | "echodiff" => do
     let d ← pDiff
     pure (encDiff d)
-  | _ => pure "bad-op"
+  | other =>
+    -- op tables of the other model parts, chained
+    match runV1 other with
+    | some p => p
+    | none =>
+      match runCli other with
+      | some p => p
+      | none =>
+        match runYaml other with
+        | some p => p
+        | none => pure "bad-op"
 
 end Jd.Driver
